@@ -62,10 +62,31 @@ def geometry_violation(doc, impl_out):
         bad = decoration_overflow(page, limit, frozenset(nxt), styles)
         if bad:
             return bad
+        bad = None if page[3] == 'true' else continued_decoration(page, frozenset(nxt), styles)   # not on blank pages
+        if bad:
+            return bad
         bad = block_content_overflow(page, limit, styles)
         if bad:
             return bad
     return None
+
+
+def continued_decoration(page, continued, styles):
+    """A box that is continued on the next page (box-decoration-break: slice) shows no bottom margin, padding or
+    border of its own on this page - the statement of C03Chain.paginate_chain_cut, for every box of the chain."""
+    def walk(frag):
+        ident = int(frag[1])
+        mb, pb, bb = Fraction(frag[5]), Fraction(frag[7]), Fraction(frag[9])
+        if ident in continued and not styles[ident]['clone'] and (mb or pb or bb):
+            return (f'page {page[1]}: box {ident} is continued on the next page but keeps a bottom decoration '
+                    f'(margin {mb}, padding {pb}, border {bb}) although box-decoration-break is slice')
+        if frag[0] == 'b':
+            for kid in frag[-1]:
+                bad = walk(kid)
+                if bad:
+                    return bad
+        return None
+    return walk(page[-1])
 
 
 def block_content_overflow(page, limit, styles):
@@ -132,7 +153,7 @@ def frag_ids(frag, out):
 class C03(PropCheck):
     id = 'C03'
     extractors = ()
-    modules = ('WpModel.Props.C03', 'WpModel.Props.C03Geo', 'WpModel.Props.C03Trace', 'WpModel.Witness.C03',
+    modules = ('WpModel.Props.C03', 'WpModel.Props.C03Geo', 'WpModel.Props.C03Chain', 'WpModel.Props.C03Trace', 'WpModel.Witness.C03',
                'WpModel.Props.C03Pm2', 'WpModel.Witness.C03Pm2', 'WpModel.Props.C03Oof', 'WpModel.Props.C03Foot',
                'WpModel.Props.C03FootGeo', 'WpModel.Props.C03Col', 'WpModel.Props.C03GeoCol')
     trusted_base = (
